@@ -1,7 +1,9 @@
 //! acb_verif_harness: correspondence harness between the real acb code and the Lean model.
 //! Usage: acb_verif_harness <family> --seed N --count N
 //! Writes protocol lines (see lean/Driver/Proto.lean) to stdout.
+mod appgen;
 mod common;
+mod costs;
 mod ledger;
 mod rng;
 
@@ -67,6 +69,20 @@ fn main() {
                 eprintln!("no replayable case on stdin");
                 std::process::exit(2);
             }
+        }
+        "costs" => {
+            let mut r = rng::Rng::new(seed);
+            for i in 0..count {
+                let mut cr = r.fork();
+                let c = costs::gen_case(&mut cr);
+                let mut s = String::new();
+                costs::run_case(&format!("K{}-{}", seed, i), &c, &mut s);
+                w.write_all(s.as_bytes()).unwrap();
+            }
+        }
+        "costs-replay" => {
+            let s = common::replay_stdin(costs::parse_case, costs::run_case);
+            w.write_all(s.as_bytes()).unwrap();
         }
         f => {
             eprintln!("unknown family {}", f);
